@@ -4,6 +4,7 @@ import SieveModel.Lemmas.FactorySet
 import SieveModel.Generated.Tables
 import SieveModel.Generated.FactoryData
 import SieveModel.Model.Show
+import SieveModel.Lemmas.QuoteLex
 /-!
 # C06 — every script the filter factory generates is valid and self-sufficient
 
@@ -55,6 +56,35 @@ theorem quoted_value_is_one_string_token (v rest : Bytes) :
         simp only [List.cons_append]
         rw [Lex.stringEnd.eq_def]
         simp [h1', h2', ih]
+
+/-- … as a statement about the lexer's rule function itself: in front of anything, the quoted value is one `string` token of
+    exactly its length -/
+theorem quoted_value_lexes_as_one_token (v rest : Bytes) : Lex.one (quote v ++ rest) = some (.string, (quote v).length) :=
+  QuoteLex.quote_one v rest
+
+/-- **a generated list lexes to `[`, one string token per value with commas between, `]`** — nothing else, whatever the
+    values hold (quotes, backslashes, commas, brackets, semicolons, line breaks, bytes that are no UTF-8) -/
+theorem generated_list_has_one_string_token_per_value (vs : List Bytes) :
+    ∃ r, Lex.lex (quoteList vs) = some r ∧ r.err = none ∧
+      r.toks.map Lex.kt = (TokKind.left_bracket, [91]) :: Reprint.commaK (vs.map (fun v => (TokKind.string, quote v))) ++
+        [(TokKind.right_bracket, [93])] ∧
+      (r.toks.filter (fun t => t.kind == .string)).length = vs.length := by
+  obtain ⟨r, h1, h2, h3⟩ := QuoteLex.quoteList_lexes vs
+  refine ⟨r, h1, h2, h3, ?_⟩
+  have hlen : ((r.toks.map Lex.kt).filter (fun x => x.1 == TokKind.string)).length = vs.length := by
+    rw [h3]
+    simp only [List.filter_cons, List.filter_append, List.length_append]
+    have hc := QuoteLex.commaK_strings (vs.map (fun v => (TokKind.string, quote v))) (by intro x hx; simp only [List.mem_map] at hx; obtain ⟨v, _, rfl⟩ := hx; rfl)
+    have e1 : ((TokKind.left_bracket, ([91] : Bytes)).1 == TokKind.string) = false := by decide
+    have e2 : ((TokKind.right_bracket, ([93] : Bytes)).1 == TokKind.string) = false := by decide
+    simp [e1, e2, hc]
+  rw [← hlen, List.filter_map, List.length_map]
+  rfl
+
+/-- non-vacuity: three hostile values -/
+example : (match Lex.lex (quoteList [sb "a\"]; discard; [\"", sb "x\\", sb "], \"y"]) with
+    | some r => r.err.isNone && decide ((r.toks.filter (fun t => t.kind == .string)).length = 3) && decide (r.toks.length = 7)
+    | none => false) = true := by decide +kernel
 
 /-- the factory's view of the live code: command table and the two dictionaries regenerated from `/repo` -/
 def liveCfg (gl : List Bytes) : Cfg :=
